@@ -394,7 +394,9 @@ def fileChecks (live : List JVar) (zeros : Bool) (hex : String) : List String :=
   let lines := (splitLines bytes).map (fun l => String.ofList (l.map Char.ofNat))
   (if (zeros ∧ got == want) ∨ (!zeros ∧ isSubseq got want) then []
    else [s!"persisted-wrong-variables file has {got} expected {want}"]) ++
-  (if live.any (fun v => v.name == "vo") ∧ lines.any (fun l => l.startsWith "vo " ∧ l != "vo ") then
+  -- (only while `vo` HOLDS an object reference: after a restore_object(file, 0) it is 0 and "vo 0" is right)
+  (if live.any (fun v => v.name == "vo" && (match v.val with | .obj => true | _ => false)) ∧
+      lines.any (fun l => l.startsWith "vo " ∧ l != "vo ") then
     ["persisted-object-reference vo"] else [])
 
 /-- layout of a declared program: inherits in order (each with its subtree), then the own variables; static when
